@@ -260,6 +260,7 @@ CGEN_FUNCTIONS = ["constmap.c:hash:C_cm_hash", "cdb_hash.c:cdb_hash", "cdb_unpac
                   "fmt_uint0.c:fmt_uint0", "fmt_str.c:fmt_str", "qmail-send.c:squareroot",
                   "ip.c:ip_scan", "ip.c:ip_scanbracket", "ip.c:ip_fmt", "quote.c:doit:C_quote_doit",
                   "received.c:issafe:C_issafe", "token822.c:atomcheck", "dns.c:getshort", "hfield.c:hmatch",
+                  "qmail-send.c:nextretry", "control.c:striptrailingwhitespace", "token822.c:needspace", "token822.c:atomok",
                   # the same code with every array access checked (field v__oob): memory-safety statements are about these
                   "scan_ulong.c:scan_ulong:K_scan_ulong:chk", "ip.c:ip_scan:K_ip_scan:chk", "ip.c:ip_scanbracket:K_ip_scanbracket:chk",
                   "quote.c:doit:K_quote_doit:chk", "byte_chr.c:byte_chr:K_byte_chr:chk", "str_chr.c:str_chr:K_str_chr:chk",
